@@ -569,5 +569,40 @@ def png_args(x, p):
     compare_cli_tokens(x, g.lua.tokens, code, keep_all, keep_file)
 
 
+def string_value(x, p):
+    """String literals keep their decoded value through the minifier (the
+    window lemma uses one-byte bodies; here the body has 2-3 symbolic bytes so
+    that escapes followed by digits, quotes and backslashes are reached)."""
+    n = p['n']
+    q = x.choice('q', [34, 39])
+    v = x.bytes('v', n)
+    toks = [lexer.TokName(b'print'), lexer.TokSpace(b' '),
+            lexer.TokString(v, 0, 0, quote=bytes([q])),
+            lexer.TokNewline(b'\n'), lexer.TokName(b'print'),
+            lexer.TokSymbol(b'('), lexer.TokSymbol(b')')]
+    w = lua.LuaMinifyTokenWriter(tokens=toks, root=None, args={})
+    try:
+        out = b''.join(w.to_lines())
+    except Exception as e:
+        x.check('the minifier does not raise', False, info=repr(e)[:100])
+        return
+    x.out('out', out)
+    x.check('output starts with the call name and the opening quote',
+            And(len(out) > 6, out[:5] == b'print', out[5] == q))
+    if not (len(out) > 6 and out[:5] == b'print' and out[5] == q):
+        return
+    verdict, kind, length, value, mode2 = R.step(('string', q), out[6:])
+    x.tag(verdict)
+    x.check('the written literal is well formed', verdict == 'tok')
+    if verdict != 'tok':
+        return
+    x.check('string literal keeps its decoded value', bytes(value) == v)
+    x.check('what follows the literal is the rest of the program',
+            out[6 + length:] == b'\nprint()')
+
+
+HARNESSES.append(Harness('string_value', string_value,
+                         quick=[dict(Q, n=2)],
+                         thorough=[dict(Q, n=2), dict(Q, n=3, _budget=2400)]))
 HARNESSES.append(Harness('cli_main', cli_main, quick=[Q]))
 HARNESSES.append(Harness('png_args', png_args, quick=[Q]))
